@@ -12,7 +12,8 @@ Decided:
   R02.c  precedence of layers: a parameter's default is below every source; execute(): built-ins <
          bound resources < call-time parameters; dispatch(): serving application's resources < built-ins <
          URL parameters; bind time: application resources < route resources; each built-in name is bound
-         to the object it names;
+         to the object it names; the URL source of the bind-time check is the table the matcher binds from (every name the
+         matcher can bind is a name binding offers, and vice versa: a default is never used for a name the URL supplies);
   R02.d  identity: on dispatch -> execute -> inject the values are only moved between dicts, never passed
          through a call (copy/str/...);
   R02.e  phase isolation: endpoint-phase provides never enter the render-phase availability (R01.d); the parameters of a generated
@@ -41,31 +42,36 @@ def check_url_params_fresh(rep, rule):
             (isinstance(e, ast.Call) and norm(e.func) == 'dict')
     # the returned mapping: a display / comprehension / dict(...) built in this call, directly or through one local
     fresh, values = bool(rets), []
+
+    def values_of_map(e):
+        if isinstance(e, ast.DictComp):
+            return [e.value]
+        if isinstance(e, ast.Dict):
+            return list(e.values)
+        if e.args or e.keywords:
+            a0 = e.args[0] if e.args else None
+            if isinstance(a0, (ast.ListComp, ast.GeneratorExp)) and isinstance(a0.elt, ast.Tuple) and len(a0.elt.elts) == 2:
+                return [a0.elt.elts[1]]
+            return [e]      # dict(something): values of unknown provenance
+        return []
     for r in rets:
         e = r.value
-        stores = []
         if isinstance(e, ast.Name):
+            # every binding of the local is a mapping built here (``ret = {}`` .. ``ret = {k: conv(..) for ..}``)
             init = [s for s in stmts_of(mp.node) if isinstance(s, ast.Assign) and norm(s.targets[0]) == e.id]
-            if len(init) != 1 or not is_fresh_map(init[0].value):
+            if not init or not all(is_fresh_map(s.value) for s in init):
                 fresh = False
                 continue
-            stores = [s for s in stmts_of(mp.node) if isinstance(s, ast.Assign) and isinstance(s.targets[0], ast.Subscript)
-                      and norm(s.targets[0].value) == e.id]
-            e = init[0].value
+            for s in init:
+                values.extend(values_of_map(s.value))
+            # what is stored under a key: the expression, or the one a single-assignment local stands for
+            values.extend(chain._deref(mp, s.value) for s in stmts_of(mp.node) if isinstance(s, ast.Assign) and
+                          isinstance(s.targets[0], ast.Subscript) and norm(s.targets[0].value) == e.id)
+            continue
         if not is_fresh_map(e):
             fresh = False
             continue
-        if isinstance(e, ast.DictComp):
-            values.append(e.value)
-        elif isinstance(e, ast.Dict):
-            values.extend(e.values)
-        elif e.args or e.keywords:
-            a0 = e.args[0] if e.args else None
-            if isinstance(a0, (ast.ListComp, ast.GeneratorExp)) and isinstance(a0.elt, ast.Tuple) and len(a0.elt.elts) == 2:
-                values.append(a0.elt.elts[1])
-            else:
-                values.append(e)      # dict(something): values of unknown provenance
-        values.extend(s.value for s in stores)
+        values.extend(values_of_map(e))
     rep.check(rule, fkey(mp, 'fresh mapping'), fresh, 'match_path returns a mapping created in this call' if fresh else
               'match_path does not return a mapping freshly created in this call', route, mp.node)
     ok = bool(values) and all(isinstance(v, ast.Call) and not (isinstance(v.func, ast.Name) and v.func.id == 'dict') for v in values)
@@ -98,6 +104,7 @@ def run(rep):
     g(chain.check_accessors, rep, 'R02.b', kinds=False)
     g(chain.check_merge_fresh, rep, 'R02.b')
     g(chain.check_request_layers, rep, 'R02.c', 'R02.d')
+    g(chain.check_url_source_agreement, rep, 'R02.c')
     g(chain.check_phase_sets, rep, 'R02.e', rule_pair='R02.e', rule_core_env='R02.e')
     g(chain.check_make_chain, rep, 'R02.e', 'R02.e')
     g(check_url_params_fresh, rep, 'R02.d')
